@@ -2,6 +2,7 @@ import vlib
 
 class P(vlib.Prop):
     id = "C05"
+    watch = ("pkg/apk/apk/implementation.go", "pkg/apk/expandapk/*.go", "pkg/apk/apk/install.go", "pkg/tarfs/fs.go", "pkg/build/installable_from_lock.go")
     rule = ("install stage: for freshly built synthetic packages (fresh RSA key, synthrepo) every substitution of the statement — control of another build, data of another package, "
             "a modified body, a modified / missing / undecodable per-file checksum, a different internally consistent package under the URL, wrong / absent / empty / duplicated datahash, "
             "checksum strings without Q1 / not base64 / empty / of another build, nothing under the URL — each x {tarfs lazy install, memfs streaming install} x "
